@@ -41,6 +41,7 @@ pub fn base_cfg(prop: &'static str, label: String, cb: usize, hb: usize, events:
         short_sink: false,
         poison: false,
         prefilled: vec![],
+        prefilled_sweep: vec![],
         deprecated_ctor: false,
         refine: false,
         refine_depth: 1,
@@ -66,7 +67,7 @@ pub fn caps(tier: &str) -> Caps {
 
 /// small configurations get the behaviour-refined key (hidden state added by a change shows up)
 fn auto_refine(cfg: &mut Cfg) {
-    if cfg.cb <= 3 && cfg.hb <= 4 && cfg.events.len() <= 24 && cfg.digest.is_none() && cfg.prefilled.is_empty() {
+    if cfg.cb <= 3 && cfg.hb <= 4 && cfg.events.len() <= 24 && cfg.digest.is_none() && cfg.prefilled.is_empty() && cfg.prefilled_sweep.is_empty() {
         cfg.refine = true;
     }
 }
